@@ -571,8 +571,8 @@ def real_run(ctx, scene, gids, origins, use_ref, expand, enforce, lines, pending
             if m >= 3 and not oc['enforce']:
                 vals = sorted((raw[p][q] for p in range(m) for q in range(p + 1, m)), reverse=True)
                 rows = sorted(sum(eff_matrix(raw)[p]) for p in range(m))
-                if (len(vals) > 1 and abs(vals[0] - vals[1]) <= 1e-9 * abs(vals[0])) or \
-                        any(abs(a - b) <= 1e-9 * max(abs(a), abs(b), 1e-300) for a, b in zip(rows, rows[1:])):
+                if (len(vals) > 1 and abs(vals[0] - vals[1]) <= 1e-6 * abs(vals[0])) or \
+                        any(abs(a - b) <= 1e-6 * max(abs(a), abs(b), 1e-300) for a, b in zip(rows, rows[1:])):
                     ctx.near_tie()
                     continue
             line = 'pair F %d %d %s' % (1 if oc['enforce'] else 0, m,
@@ -590,7 +590,7 @@ def real_run(ctx, scene, gids, origins, use_ref, expand, enforce, lines, pending
             impl = {'idx': oc['ret'][0], 'area': oc['ret'][1], 'rest': oc['rest'], 'warn': None}
             if m >= 2 and not oc['enforce']:
                 vals = sorted(A, reverse=True)
-                if abs(vals[0] - vals[1]) <= 1e-9 * abs(vals[0]):
+                if abs(vals[0] - vals[1]) <= 1e-6 * abs(vals[0]):
                     ctx.near_tie()
                     continue
             line = 'nextimage F %d %d %s' % (1 if oc['enforce'] else 0, m, ' '.join(f2x(x) for x in A))
